@@ -16,7 +16,7 @@ VERIF = os.path.dirname(os.path.dirname(os.path.abspath(__file__)))
 
 
 def sh(cmd, cwd, timeout=1800):
-    p = subprocess.run(cmd, cwd=cwd, env=ENV, shell=True, stdout=subprocess.PIPE, stderr=subprocess.STDOUT, text=True, timeout=timeout)
+    p = subprocess.run(cmd, cwd=cwd, env=ENV, shell=True, stdout=subprocess.PIPE, stderr=subprocess.STDOUT, text=True, errors="replace", timeout=timeout)
     return p.returncode, p.stdout
 
 
@@ -48,12 +48,19 @@ def main():
     wt = a.worktree
     dst = os.path.join(VERIF, "seeded", a.id)
     os.makedirs(dst, exist_ok=True)
-    meta = dict(id=a.id, property=a.prop, worktree_base=subprocess.run(["git", "-C", wt, "rev-parse", "--short", "HEAD"], capture_output=True, text=True).stdout.strip())
-    patch = os.path.join(wt, "seeded.patch")
-    # always regenerate the patch from the worktree state (library files only)
-    rc, out = sh("git diff -- . ':!seeded_demo_test.go' ':!SEEDED.md' ':!seeded.patch'", wt)
-    if out.strip():
-        open(patch, "w").write(out)
+    have_wt = os.path.isdir(wt)
+    meta = dict(id=a.id, property=a.prop)
+    if not have_wt:
+        # worktree already removed: re-run the checks on the stored patch only
+        a.skip_verify = True
+        patch = os.path.join(dst, "patch.diff")
+    else:
+        meta["worktree_base"] = subprocess.run(["git", "-C", wt, "rev-parse", "--short", "HEAD"], capture_output=True, text=True, errors="replace").stdout.strip()
+        patch = os.path.join(wt, "seeded.patch")
+        # always regenerate the patch from the worktree state (library files only)
+        rc, out = sh("git diff -- . ':!seeded_demo_test.go' ':!SEEDED.md' ':!seeded.patch'", wt)
+        if out.strip():
+            open(patch, "w").write(out)
     if not os.path.exists(patch) or not open(patch).read().strip():
         print("no patch in", wt)
         sys.exit(3)
@@ -82,7 +89,8 @@ def main():
         ok = meta["builds"] and not missing and demo_fails_with and demo_passes_without
         meta["confirmed"] = ok
         print("verify: builds=%s baseline_missing=%s demo_fails_with=%s demo_passes_without=%s" % (meta["builds"], missing, demo_fails_with, demo_passes_without))
-    shutil.copyfile(patch, os.path.join(dst, "patch.diff"))
+    if have_wt:
+        shutil.copyfile(patch, os.path.join(dst, "patch.diff"))
     if os.path.exists(demo):
         shutil.copyfile(demo, os.path.join(dst, "seeded_demo_test.go.txt"))
     if os.path.exists(os.path.join(wt, "SEEDED.md")):
@@ -103,7 +111,7 @@ def main():
         env = dict(ENV, VERIF_REPO=os.path.join(w, "repo"), VERIF_OUT=os.path.join(w, "out"))
         t0 = time.time()
         p = subprocess.run([os.path.join(VERIF, "check"), "run", prop, "--tier", a.tier, "--budget", str(a.budget)], cwd=VERIF, env=env,
-                           stdout=subprocess.PIPE, stderr=subprocess.PIPE, text=True)
+                           stdout=subprocess.PIPE, stderr=subprocess.PIPE, text=True, errors="replace")
         sigs = re.findall(r"signature: (.*)", p.stderr)
         details = re.findall(r"detail: (.*)", p.stderr)
         results[prop] = dict(exit=p.returncode, wall_s=round(time.time() - t0, 1), violations=p.stdout.count("VIOLATION property="),
@@ -128,7 +136,7 @@ def main():
         hist = old.get("history", [])
         hist.append({k: old.get(k) for k in ("checks", "caught_by", "at")})
         meta["history"] = hist
-        for k in ("needs", "breaks", "confirmed", "demo", "baseline_with_change", "builds"):
+        for k in ("needs", "breaks", "confirmed", "demo", "baseline_with_change", "builds", "source", "note", "worktree_base"):
             if k not in meta and k in old:
                 meta[k] = old[k]
     json.dump(meta, open(mp, "w"), indent=1)
